@@ -15,3 +15,11 @@ package x509util
 //@   ensures [nil] result == nil <==> (forall k :: 0 <= k && k < len(extensions) ==> !extensions[k].Id.Equal(oid))
 //@   ensures [first] result != nil ==> exists k :: 0 <= k && k < len(extensions) && result == elemptr(extensions, k) && extensions[k].Id.Equal(oid) && (forall j :: 0 <= j && j < k ==> !extensions[j].Id.Equal(oid))
 //@   pure
+
+// stmt C12/C14: "a chain that fails chain validation for the configured purpose ... yields an invalid-chain error";
+// "The same chain is what the revocation validator demands when configured for the timestamping purpose"
+//@ func ValidateChain(certChain, certChainPurpose)
+//@   requires corex509.ChainInput(certChain)
+//@   ensures [iff] result == nil <==> ((certChainPurpose == purpose.CodeSigning && corex509.CodeSigningChainOK(certChain, nil)) || (certChainPurpose == purpose.Timestamping && corex509.TimestampingChainOK(certChain)))
+//@   ensures [typed] result != nil ==> typeof(result) == type(result.InvalidChainError)
+//@   pure
